@@ -3940,3 +3940,72 @@ async fn browser_node_accepts_the_lite_block_of_a_block_with_a_golden_ticket() {
     if !(matches!(result, AddBlockResult::BlockAddedSuccessfully(_, true, _))) { witness(format!("a browser (lite) node refuses the honest lite block of a block with a golden ticket, because the lite block keeps the golden ticket but replaces the fee transaction by a placeholder and commit 49a1fad refuses a golden ticket without fee transaction : {:?}", result)); }
     assert_eq!(lite_blockchain.get_latest_block_id(), 3);
 }
+
+/// C01: a transaction that bypasses the signature and ownership checks through a privileged type is rejected by the pool too, whatever way it comes in
+#[tokio::test]
+#[serial_test::serial]
+async fn pool_refuses_transactions_of_block_generated_types() {
+    #[allow(unused_imports)] use crate::core::util::crypto::generate_keys;
+    #[allow(unused_imports)] use crate::core::util::test::test_manager::test::TestManager;
+    #[allow(unused_imports)] use crate::core::consensus::slip::Slip;
+    #[allow(unused_imports)] use crate::core::consensus::transaction::Transaction;
+    #[allow(unused_imports)] use crate::core::consensus::transaction::TransactionType;
+    let mut t = TestManager::default();
+    let (victim_public_key, _victim_private_key) = generate_keys();
+    let (thief_public_key, _thief_private_key) = generate_keys();
+
+    let mut issued = Slip::default();
+    issued.public_key = victim_public_key;
+    issued.amount = 1000;
+    t.initialize_from_slips_and_value(vec![issued], 5000).await;
+
+    let victim_output: Slip = {
+        let blockchain = t.blockchain_lock.read().await;
+        assert_eq!(blockchain.get_latest_block_id(), 1);
+        let block1 = blockchain.get_latest_block().unwrap();
+        let found: Vec<Slip> = block1
+            .transactions
+            .iter()
+            .flat_map(|tx| tx.to.iter())
+            .filter(|slip| slip.public_key == victim_public_key)
+            .cloned()
+            .collect();
+        assert_eq!(found.len(), 1);
+        assert!(found[0].validate(&blockchain.utxoset));
+        found[0].clone()
+    };
+
+    let build = |transaction_type: TransactionType| {
+        let mut output = Slip::default();
+        output.public_key = thief_public_key;
+        output.amount = 1000;
+        let mut tx = Transaction::default();
+        tx.timestamp = crate::core::util::test::test_manager::test::create_timestamp();
+        tx.transaction_type = transaction_type;
+        tx.add_from_slip(victim_output.clone());
+        tx.add_to_slip(output);
+        // nobody signs : the thief does not have the victim's key
+        tx
+    };
+
+    let blockchain = t.blockchain_lock.read().await;
+    let mut mempool = t.mempool_lock.write().await;
+    assert_eq!(mempool.transactions.len(), 0);
+
+    // control : as a normal transaction the unsigned spend is refused by the pool
+    mempool
+        .add_transaction_if_validates(build(TransactionType::Normal), &blockchain)
+        .await;
+    assert_eq!(mempool.transactions.len(), 0);
+
+    // the same spend, typed ATR
+    mempool
+        .add_transaction_if_validates(build(TransactionType::ATR), &blockchain)
+        .await;
+    let pooled = mempool.transactions.len();
+    let reserved = mempool
+        .utxo_map
+        .contains_key(&victim_output.get_utxoset_key());
+
+    if !((pooled) == (0)) { witness(format!("the pool admitted an unsigned ATR-typed transaction that moves the victim's output 1-{}-0 (1000) to another key ({} pooled, victim's output reserved in the pool: {}); the identical spend typed Normal was refused: the privileged type bypasses the signature and ownership checks at the pool, and the next block this node bundles carries it", victim_output.tx_ordinal, pooled, reserved)); }
+}
